@@ -1,6 +1,7 @@
 #!/bin/sh
 # run every claimed check (quick tier) on the current tree and validate the evidence files
 cd "$(dirname "$0")/.."
+python3 tools/mkmanifest.py > /dev/null   # MANIFEST follows tools/props.py
 rc=0
 for p in $(python3 -c "import json;print(' '.join(c['property_id'] for c in json.load(open('MANIFEST.json'))['checks']))"); do
   s=$(date +%s)
